@@ -54,11 +54,13 @@ def _base(rng, tier):
     if init.get("sub"):
         body = list(body)
         body.insert(rng.randint(0, max(0, len(body) - (1 if body and body[-1][0] == "r" else 0))), ["cd"])
+    if rng.random() < 0.08:
+        body = c04.misuse(rng, body)
     return {"cfg": cfg, "umask": rng.choice([0o022, 0o022, 0o077, 0, 0o027]), "init": init, "body": body,
             "body_exc": rng.random() < 0.15, "sched": [], "crash": None, "retry": True}
 
 
-ERRNOS = [EIO, ENOSPC, EPERM, EEXIST, 13]
+ERRNOS = [EIO, ENOSPC, EPERM, EEXIST, 13, 18, 30]        # incl. EXDEV, EROFS
 
 
 def generate(rng, tier, n):
@@ -128,7 +130,8 @@ def to_coq(case, obs):
     tb = c04.Table()
     base = c04.case_term(case, obs, tb)
     if obs.get("retry"):
-        retry = "(Some (%s, %s))" % (c04.c_body(case, obs["retry"]["trace"], tb), c04.c_runobs(obs["retry"], tb))
+        retry = "(Some (%s, %s))" % (c04.c_body(case, obs["retry"]["trace"], tb, body=c04.retry_body(case)),
+                                     c04.c_runobs(obs["retry"], tb))
     else:
         retry = "None"
     return tb.wrap("mkCase5 %s %s" % (base, retry))
@@ -176,6 +179,8 @@ def distribution(d, case, obs):
     bump("faults", str(len([s for s in case["sched"] if s[1] == "fault"])))
     bump("appear", str(len([s for s in case["sched"] if s[1] == "appear"])))
     bump("sweep", case.get("sweep", "random"))
+    if any(o[0] == "c" for o in case["body"]):
+        d["body_closes_its_file"] = d.get("body_closes_its_file", 0) + 1
     if obs.get("strace"):
         d["strace_cross_checked_runs"] = d.get("strace_cross_checked_runs", 0) + 1
     for e in obs["run"]["trace"]:
